@@ -195,7 +195,7 @@ func TestVerif_C11(t *testing.T) {
 	maxLenExchange := 3
 	limits := []int{0, 1, 2, 3}
 	caches := []int{0, -1} // -1 = leave the default
-	instances := []int{1, 2, 3}
+	instances := venum.QT([]int{1, 3}, []int{1, 2, 3}) // quick: 2 instances are covered by the call-sequences space
 
 	// First choice point: one fixed-arity index over kind x header x instances
 	// x cache x compression, so shards get an even mix.
@@ -362,6 +362,130 @@ func TestVerif_C11(t *testing.T) {
 		x.Note("http: %s", web.String())
 		// outcome = what the HTTP client actually saw (plus request count)
 		x.Outcome("%s|h=%v|%s|req=%d", k.name, cb.header, web.String(), farm.Requests)
+	})
+
+	// ------------------------------------------------------------------
+	// Call sequences: several calls of the same method, one after the other, on
+	// the SAME pipe server and the SAME HttpServer instances (round-robin goes
+	// on across calls), so anything an instance keeps between calls is exercised.
+	// Each call picks its own turn script and — for dynamic methods, whose output
+	// schema is chosen per call by the handler — its own output schema.
+	seqScripts := []struct {
+		name  string
+		turns []VfTurn
+	}{
+		{"emit,emit", []VfTurn{{Emit: 1, Rows: 1}, {Emit: 1, Rows: 2}}},
+		{"emit+meta,emit+log", []VfTurn{{Emit: 1, Rows: 1, Meta: []string{"uk", "uv"}}, {Emit: 1, Rows: 1, Logs: []string{"INFO:l"}}}},
+		{"emit,rpc-error", []VfTurn{{Emit: 1, Rows: 1}, {Fail: "rpc:ValueError"}}},
+	}
+	seqSchemas := []*arrow.Schema{vfOutSchema, vfI64Schema("w"), arrow.NewSchema([]arrow.Field{{Name: "v", Type: arrow.PrimitiveTypes.Int64, Nullable: true}}, nil)}
+	seqServer := func(k vfC11Kind) *Server {
+		s := NewServer()
+		handler := func(ctx context.Context, cc *CallContext, p VfXParams) (*StreamResult, error) {
+			sc := VfScript{Name: k.name, Turns: append([]VfTurn(nil), seqScripts[(p.X/10)%10].turns...), Base: p.X}
+			out := vfOutSchema
+			if k.dynamic {
+				out = seqSchemas[p.X%10]
+			}
+			r := &StreamResult{OutputSchema: out}
+			switch {
+			case k.both:
+				r.State = &VfC11Both{S: sc}
+			case k.producer:
+				r.State = &VfProducer{S: sc}
+			default:
+				r.State = &VfExchanger{S: sc}
+			}
+			if k.dynInput {
+				r.InputSchema = vfInSchema
+			}
+			return r, nil
+		}
+		switch {
+		case k.dynamic:
+			DynamicStreamWithHeader(s, "m", VfHeader{}.ArrowSchema(), handler)
+		case k.producer:
+			Producer(s, "m", vfOutSchema, handler)
+		default:
+			Exchange(s, "m", vfOutSchema, vfInSchema, handler)
+		}
+		return s
+	}
+	nCalls := venum.QT(2, 3)
+	seqInst := venum.QT([]int{1, 2}, []int{1, 2, 3})
+	venum.Explore(t, venum.Cfg{Name: "call-sequences", Shardable: true}, func(x *venum.X) {
+		c0 := x.Choose(len(vfC11Kinds)*len(seqInst)*2, "kind*instances*cache")
+		k := vfC11Kinds[c0%len(vfC11Kinds)]
+		inst := seqInst[(c0/len(vfC11Kinds))%len(seqInst)]
+		cache := []int{0, -1}[c0/(len(vfC11Kinds)*len(seqInst))]
+		limit := 0
+		if k.producer {
+			limit = x.Choose(2, "producer-batch-limit") // 0 or 1 (1 forces continuations)
+		}
+		nSchemas := 1
+		if k.dynamic {
+			nSchemas = len(seqSchemas)
+		}
+		type call struct{ script, schema int }
+		var calls []call
+		for i := 0; i < nCalls; i++ {
+			calls = append(calls, call{x.Choose(len(seqScripts), fmt.Sprintf("call%d-script", i)), x.Choose(nSchemas, fmt.Sprintf("call%d-output-schema", i))})
+		}
+		vfResetEvents()
+		pipeSrv := seqServer(k)
+		farm := vfHSNewFarm(inst, func() *Server { return seqServer(k) }, func(h *HttpServer) {
+			h.SetProducerBatchLimit(limit)
+			if cache >= 0 {
+				h.SetCallStateCacheEntries(cache)
+			}
+			_ = h.SetCompressionLevel(0)
+		})
+		var outcome []string
+		for i, c := range calls {
+			xparam := int64(1000*(i+1) + 10*c.script + c.schema)
+			initBody := vfXReq("m", xparam)
+			var pipeIn []byte
+			var inBatches []arrow.RecordBatch
+			if k.producer {
+				pipeIn = append(append([]byte{}, initBody...), vfTicks(4)...)
+			} else {
+				for j := 0; j < 2; j++ {
+					inBatches = append(inBatches, vfI64Batch("x", int64(5+j)))
+				}
+				pipeIn = append(append([]byte{}, initBody...), vfStreamBytes(vfInSchema, inBatches...)...)
+			}
+			pipe := vfHSPipeView(pipeSrv, pipeIn, false)
+			var web vfHSView
+			if k.producer {
+				web, _ = vfHSProducerView(farm, "m", initBody, false)
+			} else {
+				web, _ = vfHSExchangeView(farm, "m", initBody, false, inBatches)
+			}
+			for _, b := range inBatches {
+				b.Release()
+			}
+			which := "first-call"
+			if i > 0 {
+				which = "later-call"
+			}
+			cls := "C11:call-sequence:" + k.name + ":" + which
+			detail := func() string {
+				return fmt.Sprintf("call #%d of %v (script,schema) limit=%d cache=%d instances=%d\n pipe: %s\n http: %s", i, calls, limit, cache, inst, pipe.String(), web.String())
+			}
+			if len(pipe.Problems) > 0 {
+				x.Failf(cls+":pipe-run-broken", "%s", detail())
+			}
+			if len(web.Problems) > 0 {
+				x.Failf(cls+":http-run-broken", "%s", detail())
+			}
+			for _, facet := range []string{"data", "log", "error"} {
+				if !vfHSEq(pipe.Of(facet), web.Of(facet)) {
+					x.Failf(cls+":"+facet+"-differs", "%s\n%s", vfC11Diff(pipe.Of(facet), web.Of(facet)), detail())
+				}
+			}
+			outcome = append(outcome, web.String())
+		}
+		x.Outcome("%s|%s|req=%d", k.name, strings.Join(outcome, " || "), farm.Requests)
 	})
 }
 
